@@ -200,6 +200,7 @@ def extras(ctx, info, rng, *rest):
     # another process holds the write lock when the gateway polls: the refused dequeue must not cost the gateway its store
     from lib import twostores
     cov.update(twostores.run_busy(ctx, info))
+    cov.update(twostores.run_dequeue_stress(ctx, info))
     if rest:
         cov.update(stale_lease_after_dequeue(ctx, rest[0]))
     return cov
